@@ -225,6 +225,14 @@ static inline int should_block(int fd) {
   return 0;
 }
 
+// true for descriptors set up by the shims (socket/socketpair/accept/pipe).
+// Anything else - including negative, out-of-range and closed descriptors - is
+// handed to the real libc call, which reports EBADF for invalid ones.
+static inline int fd_is_managed(int fd) {
+  return fd_info && fd >= 0 && (rlim_t)fd < max_fd &&
+         (fd_info[fd].flags_ & IO_FLAG_WAITABLE);
+}
+
 static int setup_socket(int sock) {
   if (thread_locked) {
     return 0;
@@ -615,8 +623,8 @@ int fcntl(int fd, int cmd, ...) {
   va_end(args);
 
   if (!thread_locked) {
-    if (cmd == F_SETFL && (val == O_NONBLOCK || val == O_NDELAY)) {
-      assert(fd < max_fd);
+    if (cmd == F_SETFL && (val == O_NONBLOCK || val == O_NDELAY) &&
+        fd_is_managed(fd)) {
       atomic_fetch_and(&fd_info[fd].flags_, ~IO_FLAG_BLOCKING);
       assert(!(fd_info[fd].flags_ & IO_FLAG_BLOCKING));
       return 0;
@@ -640,12 +648,11 @@ int ioctl(IOCTLPARAMS) {
   void* val = va_arg(args, void*);
   va_end(args);
 
-  if (!thread_locked && request == FIONBIO) {
+  if (!thread_locked && request == FIONBIO && fd_is_managed(d)) {
     if (!val) {
       errno = EINVAL;
       return -1;
     }
-    assert(d < max_fd);
     if (*(int*)val) {
       atomic_fetch_and(&fd_info[d].flags_, ~IO_FLAG_BLOCKING);
       assert(!(fd_info[d].flags_ & IO_FLAG_BLOCKING));
@@ -669,7 +676,7 @@ int close(int fd) {
   }
 
   fiber_fd_closed(fd);
-  if (fd_info && fd < max_fd) {
+  if (fd_info && fd >= 0 && (rlim_t)fd < max_fd) {
     fd_info[fd].flags_ = 0;
   }
   return fibershim_close(fd);
